@@ -18,6 +18,9 @@ fn main() {
     let args: Vec<String> = std::env::args().collect();
     if args.len() < 2 { eprintln!("usage: cavh <stream> [options]"); std::process::exit(2); }
     let stream = args[1].clone();
+    // child mode of stream `tri`: one large polygon in its own process (a stack overflow aborts the process and
+    // cannot be caught), on a thread with the 2 MiB stack of ordinary spawned / test threads
+    if stream == "tribig" { tri::big_child(&args[2], args[3].parse().expect("size")); return; }
     let mut o = Opts {
         seed: std::env::var("VERIF_SEED").ok().and_then(|s| s.parse().ok()).unwrap_or(1),
         thorough: std::env::var("VERIF_TIER").map(|t| t == "thorough").unwrap_or(false),
